@@ -508,6 +508,42 @@ def _structural(ctx) -> None:
         probs.append("a scalar (or string) is not appended as ONE element")
     ctx.ob("e.structural-ops", vl, "append-cell", not probs, "<< spreads only real sequences; strings and scalars are one cell", vl.node,
            message="Vector.__lshift__: " + "; ".join(probs[:2]))
+    # the stacking / appending operators never refuse an operand for its dtype: columns of different kinds make a table, appended
+    # values of another kind are typed by inference (a left-over 'typesafe' guard refused Vector([1, 2]) >> Vector(['a', 'b']))
+    from ..symx import show as _show
+    for q in ("vector.Vector.__rshift__", "vector.Vector.__lshift__"):
+        h = prog.func(q)
+        hi = interp_of(prog, h)
+        bad = []
+        for e in hi.events:
+            if e.kind == "raise":
+                for t, pol in flatten_conds(e.conds):
+                    if any(x[0] == "attr" and x[2] in ("kind", "nullable") for x in subterms(t)):
+                        bad.append(f"`raise {_show(e.term, hi)[:50]}` under a condition on the operands' dtypes (`{_show(t, hi)[:60]}`)")
+                        break
+        ctx.ob("e.structural-ops", h, "no-kind-refusal", not bad, f"{q.split('.')[-1]} refuses no operand for its dtype", h.node,
+               message=f"{q}: " + "; ".join(bad[:2]) + ": two non-nullable vectors of different kinds cannot be stacked / concatenated although "
+                       "the same values are accepted once a None occurs or the operand is a list")
+    # other >> table (reflected): a table on the right contributes its COLUMNS, it is not one column
+    rr = prog.func("vector.Vector.__rrshift__")
+    ri = interp_of(prog, rr)
+    RS = ("param", rr.params[0])
+    spliced = 0
+    whole = []
+    for st in _result_sites(prog, rr, ("Vector", "Table", "cls")):
+        for d in leaves(st.data):
+            d_ = d
+            has_cols = any(x == ("call", ("attr", RS, "cols"), (), ()) for x in subterms(d_))
+            two_d = any(x[0] == "cmp" and x[1] == "Eq" and ("const", "int", 2) in (x[2], x[3])
+                        and ("call", ("attr", RS, "ndims"), (), ()) in (x[2], x[3]) for x in subterms(d_)) or \
+                any(t[0] == "cmp" and ("call", ("attr", RS, "ndims"), (), ()) in (t[2], t[3]) for t, pol in flatten_conds(st.ev.conds))
+            if has_cols and two_d:
+                spliced += 1
+            else:
+                whole.append(st)
+    ctx.ob("e.structural-ops", rr, "rrshift-table", spliced >= 1 and not whole, "other >> table splices the table's columns", rr.node,
+           message="Vector.__rrshift__ (which Table inherits) places self as ONE column of the result: [7, 8, 9] >> table nests the whole table "
+                   "in a single column and loses its column names (Vector([7, 8, 9]) >> table splices the columns)")
     g = prog.func("table.Table.T")
     it = interp_of(prog, g)
     SELF = ("param", g.params[0])
@@ -563,6 +599,12 @@ def _structural(ctx) -> None:
 
 _T, _V = "table", "vector"
 MUTANTS = [
+    dict(id="rshift-typesafe-guard-back", module="vector",
+         old="		if isinstance(other, Vector):\n			# (no dtype: two columns of unequal length",
+         new="		if isinstance(other, Vector):\n			if self._dtype is not None and other.schema() is not None and not self._dtype.nullable and not other.schema().nullable and self._dtype.kind != other.schema().kind:\n				raise SerifTypeError(\"Cannot concatenate two typesafe Vectors of different types\")\n			# (no dtype: two columns of unequal length",
+         rules=["e.structural-ops"], desc="reverts fix fa13777"),
+    dict(id="rrshift-table-as-one-column", module="vector", old="		rest = self.cols() if self.ndims() == 2 else (self,)", new="		rest = (self,)",
+         rules=["e.structural-ops"], desc="reverts fix 8d6592f"),
     dict(id="setattr-guard-removed", module=_T, count=2, nth=1,
          old="				if self._underlying and len(value) != self._length:\n					raise ValueError(\n						f\"Cannot assign column '{attr}': length {len(value)} != table length {self._length}\"\n					)\n",
          new="", rules=["a.length-guard"]),
